@@ -262,6 +262,18 @@ def run(ctx: Ctx) -> None:
         ac = [c for c in cons[0].calls() if isinstance(c.func, ast.Name) and c.func.id == "Array"][0]
         tgt = rec[0].stmt.targets[0].id if isinstance(rec[0].stmt, ast.Assign) and isinstance(rec[0].stmt.targets[0], ast.Name) else None
         ok = tgt is not None and isinstance(ac.args[0], ast.Name) and ac.args[0].id == tgt and len(rc.args) >= 2 and isinstance(rc.args[1], ast.Name) and rc.args[1].id == tgt
+    if not ok and not rec:
+        # the iterative form: the [..] groups are collected in source order, then wrapped walking that list BACKWARDS,
+        # each Array built around the one made before (so the last dimension written is the innermost)
+        collected = {c.func.value.id for c in walk_local(at) if isinstance(c, ast.Call) and isinstance(c.func, ast.Attribute) and c.func.attr == "append" and isinstance(c.func.value, ast.Name)
+                     and any(isinstance(w, ast.While) and any(x is c for x in ast.walk(w)) for w in walk_local(at))}
+        for lp in walk_local(at):
+            if isinstance(lp, ast.For) and isinstance(lp.iter, ast.Call) and isinstance(lp.iter.func, ast.Name) and lp.iter.func.id == "reversed" and len(lp.iter.args) == 1 \
+                    and isinstance(lp.iter.args[0], ast.Name) and lp.iter.args[0].id in collected:
+                for st_ in ast.walk(lp):
+                    if isinstance(st_, ast.Assign) and isinstance(st_.value, ast.Call) and isinstance(st_.value.func, ast.Name) and st_.value.func.id == "Array" and st_.value.args \
+                            and isinstance(st_.value.args[0], ast.Name) and any(isinstance(t, ast.Name) and t.id == st_.value.args[0].id for t in st_.targets):
+                        ok = True
     ctx.ob("R2.7", "parser:CxxParser._parse_array_type|later dimensions are wrapped first (recursion feeds the element type)", ok,
            msg="the array parser does not recurse into the following dimensions before wrapping its own: 'int a[2][3]' would come out as 3 arrays of 2", node=at, mod=mod)
     tr = pm.fn("_parse_trailing_return_type")
